@@ -363,3 +363,106 @@ fn c12_multi_decision_rows1_k2() {
     kani::cover!(y[0] == 11);
     kani::cover!(y[0] == 22);
 }
+
+// ---------------------------------------------------------------- gradient of the binary loss
+// C12 "the fitted model is a stationary point of the documented penalised loss": what the optimiser drives to zero must be the gradient of
+//     L(w, b) = -sum_i ln logistic(y_i (x_i.w + b)) + alpha/2 |w|^2,   i.e.   dL/dw = sum_i x_i y_i (logistic(y_i z_i) - 1) + alpha w,
+//     dL/db = sum_i y_i (logistic(y_i z_i) - 1)   (b is not penalised; without an intercept the same dL/dw with b = 0).
+// `logistic` is replaced by a probe (records its argument, returns a value chosen by the harness), so the unit decides the wiring of
+// the gradient for EVERY value of the logistic function: the argument y z, the factor (p - 1) y, the feature, and the penalty term
+// alpha * w on the weights only - with and without intercept.
+static mut C12_LG_N: usize = 0;
+static mut C12_LG_ARG: [u32; 2] = [0; 2];
+static mut C12_LG_RET: [f32; 2] = [0.0; 2];
+fn c12_logistic_probe<F: linfa::Float>(x: F) -> F {
+    unsafe {
+        let i = C12_LG_N;
+        assert!(i < 2);
+        C12_LG_ARG[i] = F::to_f32(&x).unwrap().to_bits();
+        C12_LG_N += 1;
+        F::cast(C12_LG_RET[i])
+    }
+}
+fn c12_logistic_grad_case(with_intercept: bool) {
+    let (x0, w0, b) = (c12_sf(-4, 4), c12_sf(-4, 4), c12_sf(-4, 4));
+    let y: f32 = if kani::any() { 1.0 } else { -1.0 };
+    let alpha = c12_sf(0, 3);
+    let pq: u8 = kani::any(); kani::assume(pq <= 4);
+    let p = pq as f32 / 4.0;
+    let x = Array2::from_shape_vec((1, 1), vec![x0]).unwrap();
+    let yv = Array1::from(vec![y]);
+    let w = if with_intercept { Array1::from(vec![w0, b]) } else { Array1::from(vec![w0]) };
+    unsafe { C12_LG_RET = [p, 0.0]; }
+    let g = logistic_grad(&x, &yv, alpha, &w);
+    let z = if with_intercept { x0 * w0 + b } else { x0 * w0 };
+    let r = (p - 1.0) * y;                                  // y (logistic(y z) - 1)
+    unsafe {
+        assert!(C12_LG_N == 1);
+        assert!(f32::from_bits(C12_LG_ARG[0]) == z * y);    // the logistic function is evaluated at y * (x.w + b)
+    }
+    assert!(g.len() == if with_intercept { 2 } else { 1 });
+    assert!(g[0] == x0 * r + alpha * w0);                   // data term + penalty on the weight
+    if with_intercept { assert!(g[1] == r); }               // the intercept is not penalised
+    kani::cover!(alpha * w0 != 0.0 && r != 0.0 && x0 != 0.0);
+}
+
+// @unit class=bounded tier=quick mem=heavy bound="no intercept; 1 sample, 1 feature; x, w integers in [-4,4], y in {-1,+1}, alpha in {0,1,2,3}, logistic value p in {0,1/4,..,1}; mat-mul kernel modelled" timeout=1500 fns=linfa_logistic::logistic_grad,linfa_logistic::convert_params
+#[kani::proof]
+#[kani::unwind(6)]
+#[kani::stub(alloc::fmt::format, fmt_stub)]
+#[kani::stub(logistic, c12_logistic_probe)]
+#[kani::stub(ndarray::linalg::impl_linalg::mat_mul_general, c12_mat_mul)]
+fn c12_logistic_grad_no_intercept() {
+    c12_logistic_grad_case(false);
+}
+
+// @unit class=bounded tier=quick mem=heavy bound="with intercept; 1 sample, 1 feature; x, w, b integers in [-4,4], y in {-1,+1}, alpha in {0,1,2,3}, logistic value p in {0,1/4,..,1}; mat-mul kernel modelled" timeout=2400 fns=linfa_logistic::logistic_grad,linfa_logistic::convert_params
+#[kani::proof]
+#[kani::unwind(6)]
+#[kani::stub(alloc::fmt::format, fmt_stub)]
+#[kani::stub(logistic, c12_logistic_probe)]
+#[kani::stub(ndarray::linalg::impl_linalg::mat_mul_general, c12_mat_mul)]
+fn c12_logistic_grad_with_intercept() {
+    c12_logistic_grad_case(true);
+}
+
+// the loss itself: -sum_i ln logistic(y_i z_i) + alpha/2 |w|^2, `log_logistic` replaced by a probe; the intercept is not penalised
+static mut C12_LL_N: usize = 0;
+static mut C12_LL_ARG: [u32; 2] = [0; 2];
+static mut C12_LL_RET: [f32; 2] = [0.0; 2];
+fn c12_log_logistic_probe<F: linfa::Float>(x: F) -> F {
+    unsafe {
+        let i = C12_LL_N;
+        assert!(i < 2);
+        C12_LL_ARG[i] = F::to_f32(&x).unwrap().to_bits();
+        C12_LL_N += 1;
+        F::cast(C12_LL_RET[i])
+    }
+}
+fn c12_logistic_loss_case(with_intercept: bool) {
+    let (x0, w0, b) = (c12_sf(-4, 4), c12_sf(-4, 4), c12_sf(-4, 4));
+    let y: f32 = if kani::any() { 1.0 } else { -1.0 };
+    let alpha = c12_sf(0, 4);
+    let l = c12_sf(-8, 0);                                   // ln logistic(..) <= 0
+    let x = Array2::from_shape_vec((1, 1), vec![x0]).unwrap();
+    let yv = Array1::from(vec![y]);
+    let w = if with_intercept { Array1::from(vec![w0, b]) } else { Array1::from(vec![w0]) };
+    unsafe { C12_LL_RET = [l, 0.0]; }
+    let loss = logistic_loss(&x, &yv, alpha, &w);
+    let z = if with_intercept { x0 * w0 + b } else { x0 * w0 };
+    unsafe {
+        assert!(C12_LL_N == 1);
+        assert!(f32::from_bits(C12_LL_ARG[0]) == z * y);
+    }
+    assert!(loss == -l + 0.5 * alpha * (w0 * w0));           // small integers and halves: exact
+    kani::cover!(alpha * w0 != 0.0 && l != 0.0);
+}
+// @unit class=bounded tier=quick mem=heavy bound="with and without intercept (two concrete runs); 1 sample, 1 feature; x, w, b integers in [-4,4], y in {-1,+1}, alpha in 0..4, ln-logistic value in -8..0; mat-mul kernel modelled" timeout=1500 fns=linfa_logistic::logistic_loss,linfa_logistic::convert_params
+#[kani::proof]
+#[kani::unwind(6)]
+#[kani::stub(alloc::fmt::format, fmt_stub)]
+#[kani::stub(log_logistic, c12_log_logistic_probe)]
+#[kani::stub(ndarray::linalg::impl_linalg::mat_mul_general, c12_mat_mul)]
+fn c12_logistic_loss_wiring() {
+    if kani::any() { c12_logistic_loss_case(true); } else { c12_logistic_loss_case(false); }
+}
